@@ -120,7 +120,19 @@ pub fn classify_hang() -> String {
 
 /// Install a callback that runs after every scheduler step (invariant checks)
 pub fn set_step_hook(f: Box<dyn FnMut()>) {
-    STEP_HOOK.with(|h| *h.borrow_mut() = Some(f));
+    // a second hook (second monitor in the same run) runs after the first
+    let prev = STEP_HOOK.with(|h| h.borrow_mut().take());
+    let combined: Box<dyn FnMut()> = match prev {
+        Some(mut p) => {
+            let mut f = f;
+            Box::new(move || {
+                p();
+                f();
+            })
+        }
+        None => f,
+    };
+    STEP_HOOK.with(|h| *h.borrow_mut() = Some(combined));
 }
 
 fn run_step_hook() {
